@@ -83,10 +83,11 @@ fn main() {
 
     let opts = Opts { tier, seed, threads, verif_dir, scale, replay: None };
     start_watchdog(if tier == Tier::Quick { 1500 } else { 6 * 3600 }, id);
-    let Some(report) = vverif::props::run(id, &opts) else {
+    let Some(mut report) = vverif::props::run(id, &opts) else {
         println!("INCONCLUSIVE unknown property {id}");
         std::process::exit(2);
     };
+    report.absorb_fuzz_results();
     report.write_evidence(&opts);
     for k in &report.known_findings {
         println!("KNOWN-FINDING: property={id} {k}");
